@@ -297,6 +297,13 @@ def shard_random(task):
 
     def check_dec(args):
         enc, s, kind = args
+        try:
+            _check_dec(enc, s, kind)
+        except Failure as f:
+            f.case = {"filter": "decode." + enc, "kind": kind, "text": [ord(c) for c in s]}
+            raise
+
+    def _check_dec(enc, s, kind):
         if kind == "str":
             check_decode(F, enc, s, s)
         elif kind == "bytes":
@@ -351,9 +358,40 @@ def classify(f):
     return None
 
 
+class _Obj:
+    def __init__(self, v):
+        self.v = v
+
+    def __str__(self):
+        return self.v
+
+
+def replay_decode(F, case):
+    enc = case["filter"].split(".", 1)[1]
+    s = "".join(chr(c) for c in case["text"])
+    kind = case["kind"]
+    try:
+        if kind == "str":
+            check_decode(F, enc, s, s)
+        elif kind == "bytes":
+            check_decode(F, enc, s.encode(enc), s)
+        elif kind == "int":
+            check_decode(F, enc, len(s), str(len(s)))
+        elif kind == "none":
+            check_decode(F, enc, None, "None")
+        else:
+            check_decode(F, enc, _Obj(s), s)
+    except Failure as f:
+        f.case = case
+        return f
+    return None
+
+
 def replay(case):
     core.setup_repo()
     F = _filters()
+    if case.get("filter", "").startswith("decode.") and "kind" in case:
+        return replay_decode(F, case)
     s = case["input"]
     if isinstance(s, list):
         s = "".join(chr(c) for c in s)
